@@ -3,7 +3,12 @@
    counterpart of what tools/translators/gen_codec_tpl.py regenerates from the templates on every run
    (Generated/Gen_CodecTpl.v); Codec/TplTie.v proves the two equal, so any edit of a template branch breaks an
    obligation of C01/C02.  Refresh deliberately with
-   `python -m tools.translators.gen_codec_tpl --emit-expected` after reviewing a template change against Walker.v. *)
+   `python -m tools.translators.gen_codec_tpl --emit-expected` after reviewing a template change against Walker.v.
+   REVIEW CRITERION for option-only template fixes (e.g. 2e84c7a, enable_override_variable_array_capacity): the
+   `walker_c_*_macros_default` tables (= the projection on opt_override_capacity = false, which is what Walker.v
+   models; guard / storage-capacity helper macros dropped or inlined) must stay byte-identical to the previously
+   reviewed tables, i.e. the full tables may differ from them ONLY under the static atom `opt_override_capacity`;
+   the C++ / Python tables must not change at all.  `--review` checks exactly this against `git show HEAD:`. *)
 From Coq Require Import List String.
 From Verif Require Import TplTieBase.
 Import ListNotations.
@@ -34,7 +39,7 @@ Definition walker_c_ser_macros : list (string * string * list tnode) :=
    ("_serialize_impl", "t",
     [NAct KStore "const {{ typename_unsigned_length }} capacity_bytes = *inout_buffer_size_bytes;";
      NIf [
-       ((CAtom "options.enable_override_variable_array_capacity"),
+       ((CAtom "opt_override_capacity"),
         [NAct KPre "#ifndef {{ t | full_reference_name }}_DISABLE_SERIALIZATION_BUFFER_CHECK_"])]
       [];
      NAct KGuard "if ((8U * ({{ typename_unsigned_bit_length }}) capacity_bytes) < {{ t.inner_type.bit_length_set.max }}UL)";
@@ -42,9 +47,374 @@ Definition walker_c_ser_macros : list (string * string * list tnode) :=
      NAct KReturn "return -NUNAVUT_ERROR_SERIALIZATION_BUFFER_TOO_SMALL;";
      NAct KClose "";
      NIf [
-       ((CAtom "options.enable_override_variable_array_capacity"),
+       ((CAtom "opt_override_capacity"),
         [NAct KPre "#endif"])]
       [];
+     NAct KStore "{{ typename_unsigned_bit_length }} offset_bits = 0U;";
+     NIf [
+       ((CAtom "t.inner_type is StructureType"),
+        [NFor "f, offset in t.inner_type.iterate_fields_with_offsets()"
+          [NIf [
+             ((CAtom "loop.first"),
+              [NJAssert (CAtom "f.data_type.alignment_requirement <= t.inner_type.alignment_requirement")])]
+            [NAct KMacro "_pad_to_alignment(f.data_type.alignment_requirement)"];
+           NAct KOpen "";
+           NAct KMacro "_serialize_any(f.data_type, 'obj->' + (f|id), offset)";
+           NAct KClose ""]]);
+       ((CAtom "t.inner_type is UnionType"),
+        [NAct KOpen "";
+         NAct KMacro "_serialize_integer(t.inner_type.tag_field_type, 'obj->_tag_', 0|bit_length_set)";
+         NAct KClose "";
+         NFor "f, offset in t.inner_type.iterate_fields_with_offsets()"
+          [NAct KGuard "{{ 'if' if loop.first else 'else if' }} ({{ loop.index0 }}U == obj->_tag_)";
+           NAct KOpen "";
+           NJAssert (CAtom "f.data_type.alignment_requirement <= (offset.min)");
+           NAct KMacro "_serialize_any(f.data_type, 'obj->' + (f|id), offset)";
+           NAct KClose ""];
+         NAct KElse "else";
+         NAct KOpen "";
+         NAct KReturn "return -NUNAVUT_ERROR_REPRESENTATION_BAD_UNION_TAG;";
+         NAct KClose ""])]
+      [NJAssert (CAtom "False")];
+     NAct KMacro "_pad_to_alignment(t.inner_type.alignment_requirement)";
+     NIf [
+       ((CNot (CAtom "t.inner_type.bit_length_set.fixed_length")),
+        [NAct KRAssert "'offset_bits >= %sULL'|format(t.inner_type.bit_length_set.min)";
+         NAct KRAssert "'offset_bits <= %sULL'|format(t.inner_type.bit_length_set.max)"])]
+      [NAct KRAssert "'offset_bits == %sULL'|format(t.inner_type.bit_length_set.max)"];
+     NAct KRAssert "'offset_bits % 8U == 0U'";
+     NAct KStore "*inout_buffer_size_bytes = ({{ typename_unsigned_length }}) (offset_bits / 8U);"]);
+
+   ("_guard", "n_bits",
+    [NIf [
+       ((CAtom "opt_override_capacity"),
+        [NAct KGuard "if ((offset_bits + {{ n_bits }}) > (capacity_bytes * 8U))";
+         NAct KOpen "";
+         NAct KReturn "return -NUNAVUT_ERROR_SERIALIZATION_BUFFER_TOO_SMALL;";
+         NAct KClose ""])]
+      []]);
+
+   ("_storage_capacity", "t, reference",
+    [NIf [
+       ((CAnd (CAtom "opt_override_capacity") (CAtom "t.element_type is not BooleanType")),
+        [NAct KExpr "(sizeof({{ reference }}.elements) / sizeof({{ reference }}.elements[0]))"])]
+      [NAct KExpr "{{ t.capacity }}"]]);
+
+   ("_pad_to_alignment", "n_bits",
+    [NIf [
+       ((CAtom "n_bits > 1"),
+        [NAct KGuard "if (offset_bits % {{ n_bits }}U != 0U)";
+         NAct KOpen "";
+         NAct KStore "const uint8_t {{ <pad> }} = (uint8_t)({{ n_bits }}U - offset_bits % {{ n_bits }}U);";
+         NAct KRAssert "'%s > 0'|format(<pad>)";
+         NAct KCall "const {{ typename_error_type }} {{ <err> }} = nunavutSetUxx(&buffer[0], capacity_bytes, offset_bits, 0U, {{ <pad> }});";
+         NAct KGuard "if ({{ <err> }} < 0)";
+         NAct KOpen "";
+         NAct KReturn "return {{ <err> }};";
+         NAct KClose "";
+         NAct KCursor "offset_bits += {{ <pad> }};";
+         NAct KRAssert "'offset_bits %% %dU == 0U'|format(n_bits)";
+         NAct KClose ""])]
+      []]);
+
+   ("_serialize_any", "t, reference, offset",
+    [NIf [
+       ((CAtom "t.alignment_requirement > 1"),
+        [NAct KRAssert "'offset_bits %% %dU == 0U'|format(t.alignment_requirement)"])]
+      [];
+     NIf [
+       ((CAtom "offset.is_aligned_at_byte()"),
+        [NAct KRAssert "'offset_bits % 8U == 0U'"])]
+      [];
+     NAct KRAssert "'(offset_bits + %dULL) <= (capacity_bytes * 8U)'|format(t.bit_length_set.max)";
+     NIf [
+       ((CAtom "t is VoidType"),
+        [NAct KMacro "_serialize_void(t, offset)"]);
+       ((CAtom "t is BooleanType"),
+        [NAct KMacro "_serialize_boolean(t, reference, offset)"]);
+       ((CAtom "t is IntegerType"),
+        [NAct KMacro "_serialize_integer(t, reference, offset)"]);
+       ((CAtom "t is FloatType"),
+        [NAct KMacro "_serialize_float(t, reference, offset)"]);
+       ((CAtom "t is FixedLengthArrayType"),
+        [NAct KMacro "_serialize_fixed_length_array(t, reference, offset)"]);
+       ((CAtom "t is VariableLengthArrayType"),
+        [NAct KMacro "_serialize_variable_length_array(t, reference, offset)"]);
+       ((CAtom "t is CompositeType"),
+        [NAct KMacro "_serialize_composite(t, reference, offset)"])]
+      [NJAssert (CAtom "False")]]);
+
+   ("_serialize_void", "t, offset",
+    [NAct KMacro "_guard('%dULL'|format(t.bit_length))";
+     NIf [
+       ((CAtom "offset.is_aligned_at_byte()"),
+        [NIf [
+           ((CAtom "t.bit_length <= 8"),
+            [NAct KStore "buffer[offset_bits / 8U] = 0U;"])]
+          [NAct KCall "(void) memset(&buffer[offset_bits / 8U], 0, {{ t.bit_length|bits2bytes_ceil }});"]])]
+      [NAct KCall "const {{ typename_error_type }} {{ <err> }} = nunavutSetUxx(&buffer[0], capacity_bytes, offset_bits, 0U, {{ t.bit_length }}U);";
+       NAct KGuard "if ({{ <err> }} < 0)";
+       NAct KOpen "";
+       NAct KReturn "return {{ <err> }};";
+       NAct KClose ""];
+     NAct KCursor "offset_bits += {{ t.bit_length }}UL;"]);
+
+   ("_serialize_boolean", "t, reference, offset",
+    [NAct KMacro "_guard('1ULL')";
+     NIf [
+       ((CAtom "offset.is_aligned_at_byte()"),
+        [NAct KStore "buffer[offset_bits / 8U] = {{ reference }} ? 1U : 0U;"])]
+      [NAct KGuard "if ({{ reference }})";
+       NAct KOpen "";
+       NAct KStore "buffer[offset_bits / 8U] = ({{ typename_byte }})(buffer[offset_bits / 8U] | (1U << (offset_bits % 8U)));";
+       NAct KClose "";
+       NAct KElse "else";
+       NAct KOpen "";
+       NAct KStore "buffer[offset_bits / 8U] = ({{ typename_byte }})(buffer[offset_bits / 8U] & ~(1U << (offset_bits % 8U)));";
+       NAct KClose ""];
+     NAct KCursor "offset_bits += 1U;"]);
+
+   ("_serialize_integer", "t, reference, offset",
+    [NAct KMacro "_guard('%dULL'|format(t.bit_length))";
+     NIf [
+       ((CAtom "t is saturated"),
+        [NIf [
+           ((CNot (CAtom "t.standard_bit_length")),
+            [NAct KStore "{{ t|type_from_primitive }} {{ <sat> }} = {{ reference }};";
+             NIf [
+               ((CAtom "t is UnsignedIntegerType"),
+                [NJAssert (CAtom "t.inclusive_value_range[0] == 0")])]
+              [NAct KGuard "if ({{ <sat> }} < {{ t.inclusive_value_range[0]|literal(t) }})";
+               NAct KOpen "";
+               NAct KStore "{{ <sat> }} = {{ t.inclusive_value_range[0]|literal(t) }};";
+               NAct KClose ""];
+             NAct KGuard "if ({{ <sat> }} > {{ t.inclusive_value_range[1]|literal(t) }})";
+             NAct KOpen "";
+             NAct KStore "{{ <sat> }} = {{ t.inclusive_value_range[1]|literal(t) }};";
+             NAct KClose ""])]
+          [NSet "ref_value" "reference"]])]
+      [NSet "ref_value" "reference"];
+     NIf [
+       ((CAnd (CAtom "offset.is_aligned_at_byte()") (CAtom "t.bit_length <= 8")),
+        [NAct KStore "buffer[offset_bits / 8U] = ({{ typename_byte }})({{ <sat> }});"]);
+       ((CAnd (CAtom "offset.is_aligned_at_byte()") (CAtom "LITTLE_ENDIAN")),
+        [NAct KCall "(void) memmove(&buffer[offset_bits / 8U], &{{ <sat> }}, {{ t.bit_length|bits2bytes_ceil }}U);"])]
+      [NAct KCall "const {{ typename_error_type }} {{ <err> }} = nunavutSet{{ 'U' if t is UnsignedIntegerType else 'I' }}xx(&buffer[0], capacity_bytes, offset_bits, {{ <sat> }}, {{ t.bit_length }}U);";
+       NAct KGuard "if ({{ <err> }} < 0)";
+       NAct KOpen "";
+       NAct KReturn "return {{ <err> }};";
+       NAct KClose ""];
+     NAct KCursor "offset_bits += {{ t.bit_length }}U;"]);
+
+   ("_serialize_float", "t, reference, offset",
+    [NAct KMacro "_guard('%dULL'|format(t.bit_length))";
+     NIf [
+       ((CAtom "t is saturated"),
+        [NIf [
+           ((CAtom "t.bit_length not in (32, 64)"),
+            [NAct KStore "{{ t|type_from_primitive }} {{ <sat> }} = {{ reference }};";
+             NAct KGuard "if (isfinite({{ <sat> }}))";
+             NAct KOpen "";
+             NAct KGuard "if ({{ <sat> }} < {{ t.inclusive_value_range[0]|literal(t) }})";
+             NAct KOpen "";
+             NAct KStore "{{ <sat> }} = {{ t.inclusive_value_range[0]|literal(t) }};";
+             NAct KClose "";
+             NAct KGuard "if ({{ <sat> }} > {{ t.inclusive_value_range[1]|literal(t) }})";
+             NAct KOpen "";
+             NAct KStore "{{ <sat> }} = {{ t.inclusive_value_range[1]|literal(t) }};";
+             NAct KClose "";
+             NAct KClose ""]);
+           ((CAtom "t.bit_length == 32"),
+            [NSet "ref_value" "reference";
+             NAct KSAssert "static_assert(NUNAVUT_PLATFORM_IEEE754_FLOAT, ""Native IEEE754 binary32 required. TODO: relax constraint"");"]);
+           ((CAtom "t.bit_length == 64"),
+            [NSet "ref_value" "reference";
+             NAct KSAssert "static_assert(NUNAVUT_PLATFORM_IEEE754_DOUBLE, ""Native IEEE754 binary64 required. TODO: relax constraint"");"])]
+          [NJAssert (CAtom "False")]])]
+      [NSet "ref_value" "reference"];
+     NIf [
+       ((CAnd (CAtom "offset.is_aligned_at_byte()") (CAtom "LITTLE_ENDIAN")),
+        [NIf [
+           ((CAtom "t.bit_length == 16"),
+            [NAct KCall "const uint16_t {{ <half> }} = nunavutFloat16Pack({{ <sat> }});";
+             NAct KCall "(void) memmove(&buffer[offset_bits / 8U], &{{ <half> }}, 2U);"]);
+           ((CAtom "t.bit_length == 32"),
+            [NAct KSAssert "static_assert(NUNAVUT_PLATFORM_IEEE754_FLOAT, ""Native IEEE754 binary32 required. TODO: relax constraint"");";
+             NAct KCall "(void) memmove(&buffer[offset_bits / 8U], &{{ <sat> }}, 4U);"]);
+           ((CAtom "t.bit_length == 64"),
+            [NAct KSAssert "static_assert(NUNAVUT_PLATFORM_IEEE754_DOUBLE, ""Native IEEE754 binary64 required. TODO: relax constraint"");";
+             NAct KCall "(void) memmove(&buffer[offset_bits / 8U], &{{ <sat> }}, 8U);"])]
+          [NJAssert (CAtom "False")]])]
+      [NAct KCall "const {{ typename_error_type }} {{ <err> }} = nunavutSetF{{ t.bit_length }}(&buffer[0], capacity_bytes, offset_bits, {{ <sat> }});";
+       NAct KGuard "if ({{ <err> }} < 0)";
+       NAct KOpen "";
+       NAct KReturn "return {{ <err> }};";
+       NAct KClose ""];
+     NAct KCursor "offset_bits += {{ t.bit_length }}U;"]);
+
+   ("_serialize_fixed_length_array", "t, reference, offset",
+    [NIf [
+       ((CAtom "t.element_type is BooleanType"),
+        [NIf [
+           ((CAtom "offset.is_aligned_at_byte()"),
+            [])]
+          [];
+         NAct KMacro "_guard('%dULL'|format(t.capacity))";
+         NAct KCall "nunavutCopyBits(&buffer[0], offset_bits, {{ t.capacity }}UL, &{{ reference }}_bitpacked_[0], 0U);";
+         NAct KCursor "offset_bits += {{ t.capacity }}UL;"]);
+       ((CAnd (CAnd (CAtom "t.element_type is PrimitiveType") (CAtom "t.element_type.bit_length == 8")) (CAtom "t.element_type is zero_cost_primitive")),
+        [NIf [
+           ((CAtom "offset.is_aligned_at_byte()"),
+            [])]
+          [];
+         NAct KMacro "_guard('%dULL'|format(t.capacity * 8))";
+         NAct KCall "nunavutCopyBits(&buffer[0], offset_bits, {{ t.capacity }}UL * 8U, &{{ reference }}[0], 0U);";
+         NAct KCursor "offset_bits += {{ t.capacity }}UL * 8U;"]);
+       ((CAnd (CAtom "t.element_type is PrimitiveType") (CAtom "t.element_type is zero_cost_primitive")),
+        [NIf [
+           ((CAtom "t.element_type is FloatType"),
+            [NAct KSAssert "static_assert(NUNAVUT_PLATFORM_IEEE754_FLOAT, ""Native IEEE754 binary32 required. TODO: relax constraint"");";
+             NIf [
+               ((CAtom "t.element_type.bit_length > 32"),
+                [NAct KSAssert "static_assert(NUNAVUT_PLATFORM_IEEE754_DOUBLE, ""Native IEEE754 binary64 required. TODO: relax constraint"");"])]
+              []])]
+          [];
+         NIf [
+           ((CAtom "offset.is_aligned_at_byte()"),
+            [])]
+          [];
+         NAct KMacro "_guard('%dULL'|format(t.capacity * t.element_type.bit_length))";
+         NAct KCall "nunavutCopyBits(&buffer[0], offset_bits, {{ t.capacity }}UL * {{ t.element_type.bit_length }}UL, &{{ reference }}[0], 0U);";
+         NAct KCursor "offset_bits += {{ t.capacity }}UL * {{ t.element_type.bit_length }}UL;"])]
+      [NAct KStore "const {{ typename_unsigned_bit_length }} {{ <origin> }} = offset_bits;";
+       NSet "element_offset" "offset + t.element_type.bit_length_set.repeat_range(t.capacity - 1)";
+       NAct KLoop "for (size_t {{ <index> }} = 0U; {{ <index> }} < {{ t.capacity }}UL; ++{{ <index> }})";
+       NAct KOpen "";
+       NAct KMacro "_serialize_any(t.element_type, reference + ('[%s]'|format(<index>)), element_offset)";
+       NAct KClose "";
+       NIf [
+         ((CNot (CAtom "t.bit_length_set.fixed_length")),
+          [NAct KRAssert "'(offset_bits - %s) >= %sULL'|format(<origin>, t.bit_length_set.min)";
+           NAct KRAssert "'(offset_bits - %s) <= %sULL'|format(<origin>, t.bit_length_set.max)"])]
+        [NAct KRAssert "'(offset_bits - %s) == %sULL'|format(<origin>, t.bit_length_set.max)"];
+       NAct KCall "(void) {{ <origin> }};"]]);
+
+   ("_serialize_variable_length_array", "t, reference, offset",
+    [NAct KGuard "if ({{ reference }}.count > {{ _storage_capacity(t, reference) }})";
+     NAct KOpen "";
+     NAct KReturn "return -NUNAVUT_ERROR_REPRESENTATION_BAD_ARRAY_LENGTH;";
+     NAct KClose "";
+     NAct KMacro "_serialize_integer(t.length_field_type, reference + '.count', offset)";
+     NSet "element_offset" "offset + t.bit_length_set";
+     NSet "first_element_offset" "offset + t.length_field_type.bit_length";
+     NJAssert (CAtom "(element_offset.min) == (first_element_offset.min)");
+     NIf [
+       ((CAtom "first_element_offset.is_aligned_at_byte()"),
+        [NAct KRAssert "'offset_bits % 8U == 0U'"])]
+      [];
+     NIf [
+       ((CAtom "t.element_type is BooleanType"),
+        [NIf [
+           ((CAtom "first_element_offset.is_aligned_at_byte()"),
+            [])]
+          [];
+         NAct KMacro "_guard('%s.count'|format(reference))";
+         NAct KCall "nunavutCopyBits(&buffer[0], offset_bits, {{ reference }}.count, &{{ reference }}.bitpacked[0], 0U);";
+         NAct KCursor "offset_bits += {{ reference }}.count;"]);
+       ((CAnd (CAnd (CAtom "t.element_type is PrimitiveType") (CAtom "t.element_type.bit_length == 8")) (CAtom "t.element_type is zero_cost_primitive")),
+        [NIf [
+           ((CAtom "element_offset.is_aligned_at_byte()"),
+            [])]
+          [];
+         NAct KMacro "_guard('(%s.count * 8U)'|format(reference))";
+         NAct KCall "nunavutCopyBits(&buffer[0], offset_bits, {{ reference }}.count * 8U, &{{ reference }}.elements[0], 0U);";
+         NAct KCursor "offset_bits += {{ reference }}.count * 8U;"]);
+       ((CAnd (CAtom "t.element_type is PrimitiveType") (CAtom "t.element_type is zero_cost_primitive")),
+        [NIf [
+           ((CAtom "t.element_type is FloatType"),
+            [NAct KSAssert "static_assert(NUNAVUT_PLATFORM_IEEE754_FLOAT, ""Native IEEE754 binary32 required. TODO: relax constraint"");";
+             NIf [
+               ((CAtom "t.element_type.bit_length > 32"),
+                [NAct KSAssert "static_assert(NUNAVUT_PLATFORM_IEEE754_DOUBLE, ""Native IEEE754 binary64 required. TODO: relax constraint"");"])]
+              []])]
+          [];
+         NIf [
+           ((CAtom "element_offset.is_aligned_at_byte()"),
+            [])]
+          [];
+         NAct KMacro "_guard('(%s.count * %dUL)'|format(reference, t.element_type.bit_length))";
+         NAct KCall "nunavutCopyBits(&buffer[0], offset_bits, {{ reference }}.count * {{ t.element_type.bit_length }}UL, &{{ reference }}.elements[0], 0U);";
+         NAct KCursor "offset_bits += {{ reference }}.count * {{ t.element_type.bit_length }}UL;"])]
+      [NAct KLoop "for (size_t {{ <index> }} = 0U; {{ <index> }} < {{ reference }}.count; ++{{ <index> }})";
+       NAct KOpen "";
+       NAct KMacro "_serialize_any(t.element_type, reference + ('.elements[%s]'|format(<index>)), element_offset)";
+       NAct KClose ""]]);
+
+   ("_serialize_composite", "t, reference, offset",
+    [NSet "is_variable_size" "not t.inner_type.bit_length_set.fixed_length";
+     NSet "size_bytes" "t.inner_type.bit_length_set.max|bits2bytes_ceil";
+     NAct KStore "{{ typename_unsigned_length }} {{ <size_bytes> }} = {{ size_bytes }}UL;";
+     NIf [
+       ((CAtom "t is DelimitedType"),
+        [NIf [
+           ((CAtom "is_variable_size"),
+            [NAct KMacro "_guard('%dULL'|format(t.delimiter_header_type.bit_length))";
+             NAct KCursor "offset_bits += {{ t.delimiter_header_type.bit_length }}U;"])]
+          [NJAssert (CAtom "size_bytes * 8 == (t.inner_type.bit_length_set.min) == (t.inner_type.bit_length_set.max)");
+           NAct KMacro "_serialize_integer(t.delimiter_header_type, <size_bytes>, offset)"]])]
+      [];
+     NIf [
+       ((CAtom "opt_override_capacity"),
+        [NAct KMacro "_guard('0ULL')";
+         NAct KGuard "if ({{ <size_bytes> }} > (capacity_bytes - (offset_bits / 8U)))";
+         NAct KOpen "";
+         NAct KStore "{{ <size_bytes> }} = capacity_bytes - (offset_bits / 8U);";
+         NAct KClose ""])]
+      [];
+     NAct KRAssert "'offset_bits % 8U == 0U'";
+     NAct KRAssert "'(offset_bits / 8U + %s) <= capacity_bytes'|format(<size_bytes>)";
+     NAct KCall "{{ typename_error_type }} {{ <err> }} = {{ t|full_reference_name }}_serialize_( &{{ reference }}, &buffer[offset_bits / 8U], &{{ <size_bytes> }});";
+     NAct KGuard "if ({{ <err> }} < 0)";
+     NAct KOpen "";
+     NAct KReturn "return {{ <err> }};";
+     NAct KClose "";
+     NIf [
+       ((CNot (CAtom "t.inner_type.bit_length_set.fixed_length")),
+        [NAct KRAssert "'(%s * 8U) >= %sULL'|format(<size_bytes>, t.inner_type.bit_length_set.min)";
+         NAct KRAssert "'(%s * 8U) <= %sULL'|format(<size_bytes>, t.inner_type.bit_length_set.max)"])]
+      [NAct KRAssert "'(%s * 8U) == %sULL'|format(<size_bytes>, t.inner_type.bit_length_set.max)"];
+     NIf [
+       ((CAnd (CAtom "t is DelimitedType") (CAtom "is_variable_size")),
+        [NIf [
+           ((CAtom "LITTLE_ENDIAN"),
+            [NAct KCall "(void) memmove(&buffer[(offset_bits - {{ t.delimiter_header_type.bit_length }}) / 8U], &{{ <size_bytes> }}, {{ t.delimiter_header_type.bit_length|bits2bytes_ceil }}U);"])]
+          [NAct KCall "{{ <err> }} = nunavutSetUxx(&buffer[0], capacity_bytes, offset_bits - {{ t.delimiter_header_type.bit_length }}, {{ <size_bytes> }}, {{ t.delimiter_header_type.bit_length }}U);";
+           NAct KGuard "if ({{ <err> }} < 0)";
+           NAct KOpen "";
+           NAct KReturn "return {{ <err> }};";
+           NAct KClose ""]])]
+      [];
+     NAct KCursor "offset_bits += {{ <size_bytes> }} * 8U;";
+     NAct KRAssert "'offset_bits <= (capacity_bytes * 8U)'"])].
+
+Definition walker_c_ser_macros_default : list (string * string * list tnode) :=
+  [("serialize", "t",
+    [NAct KGuard "if ((obj == {{ valuetoken_null }}) || (buffer == {{ valuetoken_null }}) || (inout_buffer_size_bytes == {{ valuetoken_null }}))";
+     NAct KOpen "";
+     NAct KReturn "return -NUNAVUT_ERROR_INVALID_ARGUMENT;";
+     NAct KClose "";
+     NIf [
+       ((CAtom "t.inner_type.bit_length_set.max > 0"),
+        [NAct KMacro "_serialize_impl(t)"])]
+      [NAct KStore "*inout_buffer_size_bytes = 0U;"];
+     NAct KReturn "return NUNAVUT_SUCCESS;"]);
+
+   ("_serialize_impl", "t",
+    [NAct KStore "const {{ typename_unsigned_length }} capacity_bytes = *inout_buffer_size_bytes;";
+     NAct KGuard "if ((8U * ({{ typename_unsigned_bit_length }}) capacity_bytes) < {{ t.inner_type.bit_length_set.max }}UL)";
+     NAct KOpen "";
+     NAct KReturn "return -NUNAVUT_ERROR_SERIALIZATION_BUFFER_TOO_SMALL;";
+     NAct KClose "";
      NAct KStore "{{ typename_unsigned_bit_length }} offset_bits = 0U;";
      NIf [
        ((CAtom "t.inner_type is StructureType"),
@@ -510,6 +880,210 @@ Definition walker_c_des_macros : list (string * string * list tnode) :=
 
    ("_deserialize_variable_length_array", "t, reference, offset",
     [NAct KMacro "_deserialize_integer(t.length_field_type, reference + '.count', offset)";
+     NIf [
+       ((CAnd (CAtom "opt_override_capacity") (CAtom "t.element_type is not BooleanType")),
+        [NAct KGuard "if ({{ reference }}.count > (sizeof({{ reference }}.elements) / sizeof({{ reference }}.elements[0])))"])]
+      [NAct KGuard "if ({{ reference }}.count > {{ t.capacity }}U)"];
+     NAct KOpen "";
+     NAct KReturn "return -NUNAVUT_ERROR_REPRESENTATION_BAD_ARRAY_LENGTH;";
+     NAct KClose "";
+     NSet "element_offset" "offset + t.bit_length_set";
+     NSet "first_element_offset" "offset + t.length_field_type.bit_length";
+     NJAssert (CAtom "(element_offset.min) == (first_element_offset.min)");
+     NIf [
+       ((CAtom "first_element_offset.is_aligned_at_byte()"),
+        [NAct KRAssert "'offset_bits % 8U == 0U'"])]
+      [];
+     NIf [
+       ((CAtom "t.element_type is BooleanType"),
+        [NAct KCall "nunavutGetBits(&{{ reference }}.bitpacked[0], &buffer[0], capacity_bytes, offset_bits, {{ reference }}.count);";
+         NAct KCursor "offset_bits += {{ reference }}.count;"]);
+       ((CAnd (CAnd (CAtom "t.element_type is PrimitiveType") (CAtom "t.element_type.bit_length == 8")) (CAtom "t.element_type is zero_cost_primitive")),
+        [NAct KCall "nunavutGetBits(&{{ reference }}.elements[0], &buffer[0], capacity_bytes, offset_bits, {{ reference }}.count * 8U);";
+         NAct KCursor "offset_bits += {{ reference }}.count * 8U;"]);
+       ((CAnd (CAtom "t.element_type is PrimitiveType") (CAtom "t.element_type is zero_cost_primitive")),
+        [NIf [
+           ((CAtom "t.element_type is FloatType"),
+            [NAct KSAssert "static_assert(NUNAVUT_PLATFORM_IEEE754_FLOAT, ""Native IEEE754 binary32 required. TODO: relax constraint"");";
+             NIf [
+               ((CAtom "t.element_type.bit_length > 32"),
+                [NAct KSAssert "static_assert(NUNAVUT_PLATFORM_IEEE754_DOUBLE, ""Native IEEE754 binary64 required. TODO: relax constraint"");"])]
+              []])]
+          [];
+         NAct KCall "nunavutGetBits(&{{ reference }}.elements[0], &buffer[0], capacity_bytes, offset_bits, {{ reference }}.count * {{ t.element_type.bit_length }}U);";
+         NAct KCursor "offset_bits += {{ reference }}.count * {{ t.element_type.bit_length }}U;"])]
+      [NAct KLoop "for (size_t {{ <index> }} = 0U; {{ <index> }} < {{ reference }}.count; ++{{ <index> }})";
+       NAct KOpen "";
+       NAct KMacro "_deserialize_any(t.element_type, reference + ('.elements[%s]'|format(<index>)), element_offset)";
+       NAct KClose ""]]);
+
+   ("_deserialize_composite", "t, reference, offset",
+    [NSet "remaining_bytes" "(capacity_bytes - nunavutChooseMin((offset_bits / 8U), capacity_bytes))";
+     NAct KOpen "";
+     NIf [
+       ((CAtom "t is DelimitedType"),
+        [NAct KStore "{{ typename_unsigned_length }} {{ <size_bytes> }} = 0U;";
+         NAct KMacro "_deserialize_integer(t.delimiter_header_type, <size_bytes>, offset)";
+         NAct KGuard "if ({{ <size_bytes> }} > {{ remaining_bytes }})";
+         NAct KOpen "";
+         NAct KReturn "return -NUNAVUT_ERROR_REPRESENTATION_BAD_DELIMITER_HEADER;";
+         NAct KClose "";
+         NAct KStore "const {{ typename_unsigned_length }} {{ <dh> }} = {{ <size_bytes> }};"])]
+      [NAct KStore "{{ typename_unsigned_length }} {{ <size_bytes> }} = ({{ typename_unsigned_length }}){{ remaining_bytes }};"];
+     NAct KRAssert "'offset_bits % 8U == 0U'";
+     NAct KCall "const {{ typename_error_type }} {{ <err> }} = {{ t|full_reference_name }}_deserialize_( &{{ reference }}, &buffer[nunavutChooseMin(offset_bits / 8U, capacity_bytes)], &{{ <size_bytes> }});";
+     NAct KGuard "if ({{ <err> }} < 0)";
+     NAct KOpen "";
+     NAct KReturn "return {{ <err> }};";
+     NAct KClose "";
+     NIf [
+       ((CAtom "t is DelimitedType"),
+        [NAct KCursor "offset_bits += {{ <dh> }} * 8U;"])]
+      [NAct KCursor "offset_bits += {{ <size_bytes> }} * 8U;"];
+     NAct KClose ""])].
+
+Definition walker_c_des_macros_default : list (string * string * list tnode) :=
+  [("deserialize", "t",
+    [NAct KGuard "if ((out_obj == {{ valuetoken_null }}) || (inout_buffer_size_bytes == {{ valuetoken_null }}) || ((buffer == {{ valuetoken_null }}) && (0 != *inout_buffer_size_bytes)))";
+     NAct KOpen "";
+     NAct KReturn "return -NUNAVUT_ERROR_INVALID_ARGUMENT;";
+     NAct KClose "";
+     NAct KGuard "if (buffer == {{ valuetoken_null }})";
+     NAct KOpen "";
+     NAct KStore "buffer = (const {{ typename_byte }}*)"""";";
+     NAct KClose "";
+     NIf [
+       ((CAtom "t.inner_type.bit_length_set.max > 0"),
+        [NAct KMacro "_deserialize_impl(t)"])]
+      [NAct KStore "*inout_buffer_size_bytes = 0U;"];
+     NAct KReturn "return NUNAVUT_SUCCESS;"]);
+
+   ("_deserialize_impl", "t",
+    [NAct KStore "const {{ typename_unsigned_length }} capacity_bytes = *inout_buffer_size_bytes;";
+     NAct KStore "const {{ typename_unsigned_bit_length }} capacity_bits = capacity_bytes * ({{ typename_unsigned_bit_length }}) 8U;";
+     NAct KStore "{{ typename_unsigned_bit_length }} offset_bits = 0U;";
+     NIf [
+       ((CAtom "t.inner_type is StructureType"),
+        [NFor "f, offset in t.inner_type.iterate_fields_with_offsets()"
+          [NIf [
+             ((CAtom "loop.first"),
+              [NJAssert (CAtom "f.data_type.alignment_requirement <= t.inner_type.alignment_requirement")])]
+            [NAct KMacro "_pad_to_alignment(f.data_type.alignment_requirement)"];
+           NAct KMacro "_deserialize_any(f.data_type, 'out_obj->' + (f|id), offset)"]]);
+       ((CAtom "t.inner_type is UnionType"),
+        [NAct KMacro "_deserialize_integer(t.inner_type.tag_field_type, 'out_obj->_tag_', 0|bit_length_set)";
+         NFor "f, offset in t.inner_type.iterate_fields_with_offsets()"
+          [NAct KGuard "{{ 'if' if loop.first else 'else if' }} ({{ loop.index0 }}U == out_obj->_tag_)";
+           NAct KOpen "";
+           NJAssert (CAtom "f.data_type.alignment_requirement <= (offset.min)");
+           NAct KMacro "_deserialize_any(f.data_type, 'out_obj->' + (f|id), offset)";
+           NAct KClose ""];
+         NAct KElse "else";
+         NAct KOpen "";
+         NAct KReturn "return -NUNAVUT_ERROR_REPRESENTATION_BAD_UNION_TAG;";
+         NAct KClose ""])]
+      [NJAssert (CAtom "False")];
+     NAct KMacro "_pad_to_alignment(t.inner_type.alignment_requirement)";
+     NAct KRAssert "'offset_bits % 8U == 0U'";
+     NAct KCall "*inout_buffer_size_bytes = ({{ typename_unsigned_length }}) (nunavutChooseMin(offset_bits, capacity_bits) / 8U);";
+     NAct KRAssert "'capacity_bytes >= *inout_buffer_size_bytes'"]);
+
+   ("_pad_to_alignment", "n_bits",
+    [NIf [
+       ((CAtom "n_bits > 1"),
+        [NJAssert (CAtom "n_bits in (8, 16, 32, 64)");
+         NAct KCursor "offset_bits = (offset_bits + {{ n_bits - 1 }}U) & ~({{ typename_unsigned_bit_length }}) {{ n_bits - 1 }}U;"])]
+      []]);
+
+   ("_deserialize_any", "t, reference, offset",
+    [NIf [
+       ((CAtom "t.alignment_requirement > 1"),
+        [NAct KRAssert "'offset_bits %% %dU == 0U'|format(t.alignment_requirement)"])]
+      [];
+     NIf [
+       ((CAtom "offset.is_aligned_at_byte()"),
+        [NAct KRAssert "'offset_bits % 8U == 0U'"])]
+      [];
+     NIf [
+       ((CAtom "t is VoidType"),
+        [NAct KMacro "_deserialize_void(t, offset)"]);
+       ((CAtom "t is BooleanType"),
+        [NAct KMacro "_deserialize_boolean(t, reference, offset)"]);
+       ((CAtom "t is IntegerType"),
+        [NAct KMacro "_deserialize_integer(t, reference, offset)"]);
+       ((CAtom "t is FloatType"),
+        [NAct KMacro "_deserialize_float(t, reference, offset)"]);
+       ((CAtom "t is FixedLengthArrayType"),
+        [NAct KMacro "_deserialize_fixed_length_array(t, reference, offset)"]);
+       ((CAtom "t is VariableLengthArrayType"),
+        [NAct KMacro "_deserialize_variable_length_array(t, reference, offset)"]);
+       ((CAtom "t is CompositeType"),
+        [NAct KMacro "_deserialize_composite(t, reference, offset)"])]
+      [NJAssert (CAtom "False")]]);
+
+   ("_deserialize_void", "t, offset",
+    [NAct KCursor "offset_bits += {{ t.bit_length }};"]);
+
+   ("_deserialize_boolean", "t, reference, offset",
+    [NAct KGuard "if (offset_bits < capacity_bits)";
+     NAct KOpen "";
+     NIf [
+       ((CAtom "offset.is_aligned_at_byte()"),
+        [NAct KStore "{{ reference }} = (buffer[offset_bits / 8U] & 1U) != 0U;"])]
+      [NAct KStore "{{ reference }} = (buffer[offset_bits / 8U] & (1U << (offset_bits % 8U))) != 0U;"];
+     NAct KClose "";
+     NAct KElse "else";
+     NAct KOpen "";
+     NAct KStore "{{ reference }} = {{ valuetoken_false }};";
+     NAct KClose "";
+     NAct KCursor "offset_bits += 1U;"]);
+
+   ("_deserialize_integer", "t, reference, offset",
+    [NSet "getter" "'nunavutGet%s%d'|format('U' if t is UnsignedIntegerType else 'I', t|to_standard_bit_length)";
+     NIf [
+       ((CAnd (CAnd (CAtom "offset.is_aligned_at_byte()") (CAtom "t is UnsignedIntegerType")) (CAtom "t.bit_length <= 8")),
+        [NAct KGuard "if ((offset_bits + {{ t.bit_length }}U) <= capacity_bits)";
+         NAct KOpen "";
+         NAct KStore "{{ reference }} = buffer[offset_bits / 8U] & {{ 2 ** t.bit_length - 1 }}U;";
+         NAct KClose "";
+         NAct KElse "else";
+         NAct KOpen "";
+         NAct KStore "{{ reference }} = 0U;";
+         NAct KClose ""])]
+      [NAct KCall "{{ reference }} = {{ getter }}(&buffer[0], capacity_bytes, offset_bits, {{ t.bit_length }});"];
+     NAct KCursor "offset_bits += {{ t.bit_length }}U;"]);
+
+   ("_deserialize_float", "t, reference, offset",
+    [NAct KCall "{{ reference }} = nunavutGetF{{ t.bit_length }}(&buffer[0], capacity_bytes, offset_bits);";
+     NAct KCursor "offset_bits += {{ t.bit_length }}U;"]);
+
+   ("_deserialize_fixed_length_array", "t, reference, offset",
+    [NIf [
+       ((CAtom "t.element_type is BooleanType"),
+        [NAct KCall "nunavutGetBits(&{{ reference }}_bitpacked_[0], &buffer[0], capacity_bytes, offset_bits, {{ t.capacity }}UL);";
+         NAct KCursor "offset_bits += {{ t.capacity }}UL;"]);
+       ((CAnd (CAnd (CAtom "t.element_type is PrimitiveType") (CAtom "t.element_type.bit_length == 8")) (CAtom "t.element_type is zero_cost_primitive")),
+        [NAct KCall "nunavutGetBits(&{{ reference }}[0], &buffer[0], capacity_bytes, offset_bits, {{ t.capacity }}UL * 8U);";
+         NAct KCursor "offset_bits += {{ t.capacity }}UL * 8U;"]);
+       ((CAnd (CAtom "t.element_type is PrimitiveType") (CAtom "t.element_type is zero_cost_primitive")),
+        [NIf [
+           ((CAtom "t.element_type is FloatType"),
+            [NAct KSAssert "static_assert(NUNAVUT_PLATFORM_IEEE754_FLOAT, ""Native IEEE754 binary32 required. TODO: relax constraint"");";
+             NIf [
+               ((CAtom "t.element_type.bit_length > 32"),
+                [NAct KSAssert "static_assert(NUNAVUT_PLATFORM_IEEE754_DOUBLE, ""Native IEEE754 binary64 required. TODO: relax constraint"");"])]
+              []])]
+          [];
+         NAct KCall "nunavutGetBits(&{{ reference }}[0], &buffer[0], capacity_bytes, offset_bits, {{ t.capacity }}UL * {{ t.element_type.bit_length }}U);";
+         NAct KCursor "offset_bits += {{ t.capacity }}UL * {{ t.element_type.bit_length }}U;"])]
+      [NSet "element_offset" "offset + t.element_type.bit_length_set.repeat_range(t.capacity - 1)";
+       NAct KLoop "for (size_t {{ <index> }} = 0U; {{ <index> }} < {{ t.capacity }}UL; ++{{ <index> }})";
+       NAct KOpen "";
+       NAct KMacro "_deserialize_any(t.element_type, reference + ('[%s]'|format(<index>)), element_offset)";
+       NAct KClose ""]]);
+
+   ("_deserialize_variable_length_array", "t, reference, offset",
+    [NAct KMacro "_deserialize_integer(t.length_field_type, reference + '.count', offset)";
      NAct KGuard "if ({{ reference }}.count > {{ t.capacity }}U)";
      NAct KOpen "";
      NAct KReturn "return -NUNAVUT_ERROR_REPRESENTATION_BAD_ARRAY_LENGTH;";
@@ -591,7 +1165,7 @@ Definition walker_cpp_ser_macros : list (string * string * list tnode) :=
    ("_serialize_impl", "t",
     [NAct KCall "const {{ typename_unsigned_length }} capacity_bits = out_buffer.size();";
      NIf [
-       ((CAtom "options.enable_override_variable_array_capacity"),
+       ((CAtom "opt_override_capacity"),
         [NAct KPre "#ifndef {{ t | full_macro_name }}_DISABLE_SERIALIZATION_BUFFER_CHECK_"])]
       [];
      NAct KGuard "if ((static_cast<{{ typename_unsigned_bit_length }}>(capacity_bits)) < {{ t.inner_type.bit_length_set.max }}UL)";
@@ -599,7 +1173,7 @@ Definition walker_cpp_ser_macros : list (string * string * list tnode) :=
      NAct KReturn "return -nunavut::support::Error::SerializationBufferTooSmall;";
      NAct KClose "";
      NIf [
-       ((CAtom "options.enable_override_variable_array_capacity"),
+       ((CAtom "opt_override_capacity"),
         [NAct KPre "#endif // ndef {{ t | full_macro_name }}_DISABLE_SERIALIZATION_BUFFER_CHECK_"])]
       [];
      NAct KRAssert "'out_buffer.offset_alings_to_byte()'";
